@@ -1,10 +1,79 @@
 import GormModel.Drv.Util
+import GormModel.Model.Tx
 open Lean
 namespace Gorm.Drv
+open Gorm.Tx
 
-/-- line-protocol handler for C04 (ops are JSON arrays `[opname, args…]`); returns `none` for ops it does not own -/
+partial def parseProg (j : Json) : Option Prog := do
+  let a ← jArr? j
+  let k ← jStr? (arg a 0)
+  match k with
+  | "w" => some (.write (.ins (← jNat? (arg a 1))) (← jBool? (arg a 2)))
+  | "d" => some (.write (.del (← jNat? (arg a 1))) (← jBool? (arg a 2)))
+  | "q" => some (.read (← jBool? (arg a 1)))
+  | "sp" => some (.sp (← jNat? (arg a 1)) (← jBool? (arg a 2)))
+  | "rb" => some (.rb (← jNat? (arg a 1)) (← jBool? (arg a 2)))
+  | "blk" =>
+    let body ← (← jArr? (arg a 1)).toList.mapM parseProg
+    let out ← match (← jNat? (arg a 2)) with
+      | 0 => some Out.retNil | 1 => some Out.retErr | 2 => some Out.panic | _ => none
+    some (.blk body out (← jNat? (arg a 3)) (← jBool? (arg a 4)))
+  | "man" =>
+    let body ← (← jArr? (arg a 1)).toList.mapM parseProg
+    let fin ← match (← jNat? (arg a 2)) with
+      | 0 => some Fin.commit | 1 => some Fin.rollback | _ => none
+    some (.man body fin (← jBool? (arg a 3)))
+  | _ => none
+
+def atomJ : ErrAtom → Json
+  | .inj k => Json.str s!"inj{k}"
+  | .user t => Json.str s!"user{t}"
+  | .invalidTx => Json.str "invalidTx"
+  | .txDone => Json.str "txDone"
+  | .noSavepoint => Json.str "noSavepoint"
+  | .conflict => Json.str "conflict"
+
+def resJ : Res → Json
+  | .ok => Json.arr #[Json.str "ok"]
+  | .err e => Json.arr (#[Json.str "err"] ++ (e.map atomJ).toArray)
+  | .panic t => Json.arr #[Json.str "panic", natJ t]
+
+def tokJ : K × Bool → Json
+  | (k, f) =>
+    let s := match k with
+      | .B => "B" | .C => "C" | .R => "R" | .S => "S" | .T => "T" | .W => "W" | .Q => "Q"
+    Json.str (if f then s ++ "!" else s)
+
+def parseCfg (j : Json) : Option Cfg := do
+  let g (k : String) : Option Bool := (j.getObjVal? k).toOption >>= jBool?
+  some { prep := ← g "prep", dis := ← g "dis", skip := ← g "skip" }
+
+/-- ["tx.run", cfg, [fault call numbers], [initial ids], body, allowRb] -> observation of the model run
+    ["tx.spec", cfg, mask, initial, body] -> the functional reference -/
 def handleC04 (op : String) (args : Array Json) : Option Json := do
   match op with
+  | "tx.run" =>
+    let cfg ← parseCfg (arg args 1)
+    let mask ← (← jArr? (arg args 2)).toList.mapM jNat?
+    let init ← (← jArr? (arg args 3)).toList.mapM jNat?
+    let body ← (← jArr? (arg args 4)).toList.mapM parseProg
+    let allowRb ← jBool? (arg args 5)
+    if !wfBody false body then none else
+    let o : Oracle := fun k => mask.contains k
+    let (db, r) := run cfg o body { committed := init, rbFaultable := allowRb }
+    some (Json.mkObj [
+      ("store", natListJ db.committed), ("res", resJ r), ("open", natJ db.open), ("inuse", natJ db.open),
+      ("trace", Json.arr (db.trace.reverse.map tokJ).toArray),
+      ("reads", Json.arr (db.reads.reverse.map natListJ).toArray),
+      ("stale", Json.bool db.stale), ("rbfault", Json.bool db.rbFault)])
+  | "tx.spec" =>
+    let cfg ← parseCfg (arg args 1)
+    let mask ← (← jArr? (arg args 2)).toList.mapM jNat?
+    let init ← (← jArr? (arg args 3)).toList.mapM jNat?
+    let body ← (← jArr? (arg args 4)).toList.mapM parseProg
+    let o : Oracle := fun k => mask.contains k
+    let (s, r) := spec cfg o body init
+    some (Json.mkObj [("store", natListJ s), ("res", resJ r)])
   | _ => none
 
 end Gorm.Drv
